@@ -439,6 +439,12 @@ func (c *Ctx) Watch(label string, scenario any, d time.Duration) (stop func()) {
 		if f, ok := scenario.(func() any); ok {
 			scenario = f() // evaluated now: the choices made up to the hang
 		}
+		if c.outFile == "" {
+			// replay context: there is no result file to write
+			b, _ := json.Marshal(scenario)
+			fmt.Printf("HANG %s: the case did not return within %s: %s\n", label, d, b)
+			os.Exit(1)
+		}
 		c.Violation("hang:"+label, fmt.Sprintf("the case did not return within %s (the code under test blocks for ever, or loops)", d), scenario)
 		c.Incomplete("worker stopped after a hang")
 		_ = c.flush()
